@@ -255,6 +255,7 @@ func isArityError(msg string) bool {
 // hot-path counters of a group, flushed into the delta's maps by the caller
 type callCounts struct {
 	evals, arity, nontrivial, ok int64
+	caseOK, caseMatch            int64 // sub-space (vi): non-error results, router tests that matched
 	outcomes                     map[string]int64
 }
 
@@ -319,7 +320,14 @@ func (r *rt) execCall(d *decoder, dc decoded, acc *delta, cc *callCounts) {
 	}
 	cc.nontrivial++
 	cc.ok++
-	cc.outcomes[kind+":"+classOf(res)]++
+	cls := classOf(res)
+	cc.outcomes[kind+":"+cls]++
+	if d.g.caseAlpha() {
+		cc.caseOK++
+		if dc.test && cls == "object" {
+			cc.caseMatch++
+		}
+	}
 }
 
 func (cc *callCounts) flushInto(acc *delta, fnCounter string) {
@@ -335,6 +343,12 @@ func (cc *callCounts) flushInto(acc *delta, fnCounter string) {
 	}
 	for k, v := range cc.outcomes {
 		acc.Outcomes[k] += v
+	}
+	if cc.caseOK > 0 {
+		acc.Facts["case:returned-a-value"] += cc.caseOK
+	}
+	if cc.caseMatch > 0 {
+		acc.Facts["case:router-test-matched"] += cc.caseMatch
 	}
 	*cc = callCounts{outcomes: map[string]int64{}}
 }
@@ -479,6 +493,9 @@ func (r *rt) runGroup(g Group, from int, skip map[int]bool, only []int, wantSamp
 		acc.Upto, acc.Done = upto, done
 		cc.flushInto(acc, fnCounter)
 		acc.Counters[partCounter] += parted
+		if g.caseAlpha() {
+			acc.Counters["cases_with_a_case_variant_value"] += parted
+		}
 		parted = 0
 		for id, n := range r.used {
 			if n > 0 {
